@@ -16,6 +16,7 @@
 -/
 import AITB.Model.Num
 import AITB.Gen.Constants
+import AITB.Gen.C01Sites
 
 namespace AITB.MDP
 
@@ -65,6 +66,9 @@ def checkDifferentSmall (a b : Rat) : Bool := !checkEqualSmall a b
 def minR (a b : Rat) : Rat := if b < a then b else a
 def checkEqualGeneral (a b : Rat) : Bool :=
   checkEqualSmall a b || decide (absR (a - b) ≤ minR (absR a) (absR b) * AITB.Gen.equalToleranceGeneral)
+
+/-- largest absolute gap `checkEqualGeneral` tolerates between numbers of magnitude ≤ B -/
+def tieSlack (B : Rat) : Rat := AITB.Gen.equalToleranceSmall + AITB.Gen.equalToleranceGeneral * B
 
 /-! ## the MDP and its two access paths -/
 
@@ -152,11 +156,17 @@ structure VIOut where
 
 def useTolerance (tol : Rat) : Bool := checkDifferentSmall tol 0
 
+/-- the start-selection block of operator(): a supplied value function is used iff its `values` has S entries; whether its
+    `actions` vector is then sized to S is a fact of the source (`Gen.C01.viResizesActions`, see fixes/C01-2) -/
+def acceptWarm (S : Nat) (v : VF) : VF :=
+  if v.values.size != S then makeVF S
+  else if AITB.Gen.C01.viResizesActions then ⟨v.values, mkNats S (natAt v.actions)⟩ else v
+
 /-- `ValueIteration(horizon, tol, vParameter)(model)`.  `vParam = none` is the default empty value function. -/
 def valueIteration (m : MDP) (rep : Rep) (horizon : Nat) (tol : Rat) (vParam : Option VF) : VIOut :=
   let v1 : VF := match vParam with
     | none => makeVF m.S
-    | some v => if v.values.size != m.S then makeVF m.S else v
+    | some v => acceptWarm m.S v
   let ir := immRewards m rep
   let useTol := useTolerance tol
   let st := viLoop m rep ir useTol tol horizon ⟨v1, makeQ m.S m.A, tol * 2, 0⟩
@@ -210,16 +220,15 @@ def policyEvaluation (m : MDP) (rep : Rep) (horizon : Nat) (tol : Rat) (vParam :
 def greedyScan (q : Nat → Rat) : Nat → Rat × Nat
   | 0 => (q 0, 1)
   | n+1 =>
-    let (mx, cnt) := greedyScan q n
-    let val := q (n+1)
-    if checkEqualGeneral val mx then (mx, cnt + 1)
-    else if mx < val then (val, 1)
-    else (mx, cnt)
+    let r := greedyScan q n
+    if checkEqualGeneral (q (n+1)) r.1 then (r.1, r.2 + 1)
+    else if r.1 < q (n+1) then (q (n+1), 1)
+    else r
 
 /-- one row of the policy matrix -/
 def greedyRow (A : Nat) (q : Nat → Rat) (a : Nat) : Rat :=
-  let (mx, cnt) := greedyScan q (A - 1)
-  if checkEqualGeneral (q a) mx then 1 / (cnt : Rat) else 0
+  let r := greedyScan q (A - 1)
+  if checkEqualGeneral (q a) r.1 then 1 / ((r.2 : Nat) : Rat) else 0
 
 def greedyPolicy (S A : Nat) (q : Mat) : Mat := mkMat S A (fun s => greedyRow A (q.get s))
 
@@ -326,6 +335,9 @@ def greedyPlan (m : MDP) : (h : Nat) → Nat → Plan h
 /-! ## executable (data) versions of the specification values, used by the driver's checkers -/
 
 def bellmanVec (m : MDP) (v : Vec) : Vec := mkVec m.S (bellman m v.get)
+def optIterFrom (m : MDP) (v0 : Vec) : Nat → Vec
+  | 0 => v0
+  | h+1 => bellmanVec m (optIterFrom m v0 h)
 def optIter (m : MDP) : Nat → Vec
   | 0 => mkVec m.S (fun _ => 0)
   | h+1 => bellmanVec m (optIter m h)
@@ -352,6 +364,9 @@ def checkClose (n : Nat) (a b : Nat → Rat) (d : Rat) : Bool := allLt n (fun s 
 /-- transition rows are probability vectors -/
 def checkValidT (m : MDP) : Bool :=
   allLt m.S (fun s => allLt m.A (fun a => allLt m.S (fun s1 => decide (0 ≤ m.T s a s1)) && decide (sumTo m.S (m.T s a) = 1)))
+/-- rows of `p` are probability vectors over the A actions -/
+def checkValidPi (m : MDP) (p : Nat → Nat → Rat) : Bool :=
+  allLt m.S (fun s => allLt m.A (fun a => decide (0 ≤ p s a)) && decide (sumTo m.A (fun a => p s a) = 1))
 def checkConsistentR (m : MDP) : Bool :=
   allLt m.S (fun s => allLt m.A (fun a => decide (m.R s a = sumTo m.S (fun s1 => m.T s a s1 * m.R3 s a s1))))
 
